@@ -19,4 +19,6 @@ mkdir -p .cache
 ( cd harness/storage_harness && RUSTFLAGS="--cfg gecs_verif" cargo build --offline --profile dev --features comps32 --target-dir ../../.cache/target-comps32 ) || echo "setup: harness (dev, comps32) build failed"
 [ -f harness/fill_probe/Cargo.lock ] || cp /repo/Cargo.lock harness/fill_probe/Cargo.lock
 ( cd harness/fill_probe && cargo build --offline --release --target-dir ../../.cache/target-fill ) || echo "setup: fill_probe build failed"
+[ -f harness/side_probe/Cargo.lock ] || cp /repo/Cargo.lock harness/side_probe/Cargo.lock
+( cd harness/side_probe && cargo build --offline --target-dir ../../.cache/target-side && cargo build --offline --release --target-dir ../../.cache/target-side ) || echo "setup: side_probe build failed"
 echo "setup done"
